@@ -277,3 +277,16 @@ func (v *VerifStmtSession) Command(cmd byte, data []byte) VerifStmtOutcome {
 	verifStmtPool.mu.Unlock()
 	return out
 }
+
+// SQLMode returns the session's view of sql_mode (the value remembered from the
+// last accepted SET sql_mode, if any).
+func (v *VerifStmtSession) SQLMode() (string, bool) {
+	x, ok := v.se.sessionVariables.Get(mysql.SQLModeStr)
+	if !ok {
+		return "", false
+	}
+	if vv, ok := x.(*mysql.Variable); ok {
+		return fmt.Sprint(vv.Get()), true
+	}
+	return fmt.Sprint(x), true
+}
